@@ -179,6 +179,98 @@ theorem eq_refines [BEq ν] (parse : ρ → Option ν) (a b : Store κ ρ ν) :
 
 end
 
+/-! ### the lazily held text file -/
+
+theorem mapM'_map_eq {α β γ : Type} (f : α → Except Err β) (g : α → γ) (h : β → γ) (xs : List α) (ys : List β)
+    (hm : mapM' f xs = .ok ys) (hfg : ∀ x y, f x = .ok y → g x = h y) : xs.map g = ys.map h := by
+  induction xs generalizing ys with
+  | nil => simp [mapM'] at hm; subst hm; rfl
+  | cons x xs ih =>
+    simp only [mapM', bind, Except.bind] at hm
+    cases hx : f x with
+    | error e => rw [hx] at hm; simp at hm
+    | ok y =>
+      rw [hx] at hm
+      cases hxs : mapM' f xs with
+      | error e => rw [hxs] at hm; simp at hm
+      | ok ys' =>
+        rw [hxs] at hm
+        simp only [Except.ok.injEq] at hm
+        subst hm
+        simp [hfg x y hx, ih ys' hxs]
+
+theorem lazy_file_abs (text : Str) (r : List (Str × List (Option Str × (Str × Cols))))
+    (h : fileParse text = .ok r) : deepAbs (lazyFile text) = deepAbs (parsedFile r) := by
+  have hR : deepAbs (parsedFile r) = r.map (fun b => (b.1, some (b.2.map (fun c => (c.1, some c.2))))) := by
+    simp [deepAbs, parsedFile, absStore, Entry.force, List.map_map, Function.comp_def]
+  have hL : deepAbs (lazyFile text) = (fileDeserialize text).map (fun b =>
+      (b.1, (parseBlockStore b.2).map (absStore parseCatOpt))) := by
+    simp [deepAbs, lazyFile, absStore, Entry.force, List.map_map, Function.comp_def]
+  rw [hR, hL]
+  unfold fileParse at h
+  refine mapM'_map_eq _ _ _ _ _ h ?_
+  intro b rb hb
+  cases hbp : blockParse b.2 with
+  | error e => rw [hbp] at hb; simp at hb
+  | ok cats' =>
+    rw [hbp] at hb
+    simp only [Except.ok.injEq] at hb
+    subst hb
+    simp only [Prod.mk.injEq, true_and]
+    unfold blockParse at hbp
+    simp only [bind, Except.bind] at hbp
+    cases hbd : blockDeserialize b.2 with
+    | error e => rw [hbd] at hbp; simp at hbp
+    | ok cats =>
+      rw [hbd] at hbp
+      simp only [parseBlockStore, hbd, Option.map_some, Option.some.injEq]
+      simp only [absStore, List.map_map, Function.comp_def, Entry.force]
+      refine mapM'_map_eq _ _ _ _ _ hbp ?_
+      intro c rc hc
+      cases hcd : categoryDeserialize c.2 with
+      | error e => rw [hcd] at hc; simp at hc
+      | ok cat =>
+        rw [hcd] at hc
+        simp only [Except.ok.injEq] at hc
+        subst hc
+        simp [parseCatOpt, hcd]
+
+theorem lookup_mapVal {κ α β : Type} [BEq κ] (f : α → β) (k : κ) (l : List (κ × α)) :
+    lookup k (l.map (fun kv => (kv.1, f kv.2))) = (lookup k l).map f := by
+  induction l with
+  | nil => rfl
+  | cons x xs ih =>
+    by_cases h : (x.1 == k) = true
+    · simp [lookup, h]
+    · have h' : (x.1 == k) = false := by simpa using h
+      simp [lookup, h', ih]
+
+theorem lazyGet_eq (fs : FileStore) (b : Str) (c : Option Str) :
+    (match (step ⟨false, false⟩ parseBlockStore fs (.get b)).2 with
+      | .val bs =>
+        (match (step ⟨false, false⟩ parseCatOpt bs (.get c)).2 with
+          | .val cat => Except.ok cat
+          | .err e => .error e
+          | _ => .error .typeError)
+      | .err e => .error e
+      | _ => .error .typeError) = deepGet (deepAbs fs) b c := by
+  have h1 := (get_abs ⟨false, false⟩ parseBlockStore fs b).2
+  rw [h1]
+  unfold deepGet deepAbs
+  rw [lookup_mapVal]
+  cases lookup b (absStore parseBlockStore fs) with
+  | none => rfl
+  | some o =>
+    cases o with
+    | none => rfl
+    | some bs =>
+      simp only [Option.map_some]
+      have h2 := (get_abs ⟨false, false⟩ parseCatOpt bs c).2
+      rw [h2]
+      cases lookup c (absStore parseCatOpt bs) with
+      | none => rfl
+      | some o2 => cases o2 <;> rfl
+
 /-! ### encoded keys (`BinaryCIFBlock`) -/
 
 section
